@@ -10,6 +10,8 @@
 From Servitor Require Import Base Unicode Ansi Style Html HtmlTags.
 From Servitor.Facts Require Import SizeFacts LinkFacts.
 Local Open Scope Z_scope.
+From Servitor Require Import Mime Pub.
+From Servitor.Facts Require Import HtmlFacts MarkupFacts PubFacts.
 
 (* no tree, width or link state is without a result *)
 Theorem render_total :
@@ -50,3 +52,9 @@ Theorem render_size_refuted :
   [4%nat; 5%nat; 6%nat; 7%nat] = true.
 Proof. exact render_size_refuted_fact. Qed.
 Print Assumptions render_size_refuted.
+
+(* Preview of a post never panics (Snip is called with 4 lines): for every post, every field state and every width in Z *)
+Theorem post_preview_total :
+  forall (col : colors) (p : post) (w : Z), post_preview col p w <> Panic.
+Proof. exact post_preview_total_fact. Qed.
+Print Assumptions post_preview_total.
